@@ -182,6 +182,7 @@ func shapes(tier string) []shape {
 		{Name: "burst-of-6-failing-runs-slow-reader", Burst: true, Pipe: true},
 		{Name: "decoder-limit-nesting-depth", Limits: 1},
 		{Name: "decoder-limit-element-count", Limits: 2},
+		{Name: "work-start-with-foreign-entries", Limits: 3},
 	}
 	if tier == "thorough" {
 		s = append(s,
@@ -216,7 +217,17 @@ func body(sh *shape) func() {
 		for i := 0; i < sh.Len; i++ {
 			o.script = append(o.script, alphabet[mcrt.Choose(n, "message")])
 		}
-		if sh.Limits > 0 {
+		if sh.Limits == 3 {
+			// work-starts that are well-formed CBOR and carry what a work-start needs, plus an entry the message type has no
+			// place for (a boolean key; an array key): whether the server runs them or refuses them, each run id gets at most
+			// one terminal message
+			for i, extra := range []any{true, 1.5, "unknown_field"} {
+				run := fmt.Sprintf("x%d", i+1)
+				o.script = append(o.script, item{Name: fmt.Sprintf("start(%s, extra entry keyed %v)", run, extra), MayAnswer: run,
+					Bytes: rt(atp.MessageTypeWorkStart, run, map[any]any{"id": "s", "config": map[string]any{"mode": "success"}, extra: int64(1)})})
+			}
+			o.script = append(o.script, item{Name: "start(r2,success)", Bytes: ws("r2", "s", "success"), Run: "r2", Kind: "done"})
+		} else if sh.Limits > 0 {
 			o.script = append(o.script, item{Name: "start(r1,success)", Bytes: ws("r1", "s", "success"), Run: "r1"})
 			if sh.Limits == 1 {
 				var deep any = "bottom"
